@@ -137,7 +137,10 @@ def class_source(cls) -> str:
     head = "class C0[T](State):" if cls["generic"] else "class C0(State):"
     if not lines:
         lines = ["    pass"]
-    return "\n".join(["from hv.termlib import *", *aliases, head, *lines]) + "\n"
+    # postponed evaluation of annotations (PEP 563): every annotation reaches the library as a string. Only for
+    # non-generic classes: typing.get_type_hints of Python 3.12.1 cannot see PEP 695 type parameters from strings.
+    future = ["from __future__ import annotations"] if cls.get("future") and not cls["generic"] else []
+    return "\n".join([*future, "from hv.termlib import *", *aliases, head, *lines]) + "\n"
 
 
 _CLASS_CACHE: "collections.OrderedDict[str, object]" = collections.OrderedDict()
